@@ -1,3 +1,4 @@
+import re
 from collections import namedtuple
 
 from ply import yacc, lex
@@ -30,6 +31,8 @@ class Lexer(object):
         "TRUE",
     ]
 
+    newline_re = re.compile(r"\r\n|\r|\n")
+
     t_ignore = " \t"
     t_ignore_COMMENT = r'\#.*'
 
@@ -60,6 +63,7 @@ class Lexer(object):
 
     @TOKEN(r'("(\\.|[^"\\])*")|(\'(\\.|[^\'\\])*\')')
     def t_STRING(self, t):
+        t.lexer.lineno += len(self.newline_re.findall(t.value))
         try:
             t.value = t.value[1:-1].encode("latin-1", "backslashreplace").decode("unicode_escape")
         except UnicodeDecodeError as ex:
@@ -70,7 +74,7 @@ class Lexer(object):
 
     @TOKEN(r"[\r\n]+")
     def t_newline(self, t):
-        t.lexer.lineno += len(t.value)
+        t.lexer.lineno += len(self.newline_re.findall(t.value))
 
     def t_error(self, t):
         raise SyntaxError("Illegal character {0} at position {1}".format(t.value[0], t.lexpos))
@@ -302,5 +306,8 @@ class Parser(object):
     def parse(self, source):
         # type: (str) -> ProgramNode
         """ Parses the source text into a program structure """
+
+        self.lexer.lineno = 1
+        self.eems_v2 = False
 
         return self.parser.parse(source, lexer=self.lexer, tracking=True)
